@@ -49,7 +49,7 @@ Theorem C03_pointer_order : forall (P: Type) f (s s': pstate P) p, p_pointer P f
 Proof. exact p_pointer_ok. Qed.
 Print Assumptions C03_pointer_order.
 ''')
-mk("C05","statement ASTs mirror C's statement nesting and source order","StmtExamples"," AstSpec StmtProofs ElseProofs",
+mk("C05","statement ASTs mirror C's statement nesting and source order","StmtExamples"," AstSpec StmtProofs ElseProofs StmtShape",
 '''(* fix_switch_cases: for a switch body of ANY length whose label chains have ANY depth, the regrouped
    body is exactly: statements under the nearest preceding label, consecutive labels as siblings,
    statements before the first label in front (regroup_spec) - nothing lost, duplicated or reordered *)
@@ -75,6 +75,25 @@ Theorem C05_else_binds_to_nearest_if : forall (P: Type) f s r s' t s0,
     end.
 Proof. exact else_binds_to_nearest_if. Qed.
 Print Assumptions C05_else_binds_to_nearest_if.
+
+(* loop bodies are the single following statement: whatever while / do / for returns has as its body exactly one
+   value returned by a run of the statement production (stmt_here), for every token stream, state and fuel *)
+Theorem C05_loop_body_is_one_statement : forall (P: Type) f,
+  post P (fun r => exists st c, stmt_here P f st /\\
+          ((exists cond, r = mkN P C_While [cond; st] c) \\/ (exists cond, r = mkN P C_DoWhile [cond; st] c) \\/
+           (exists init cond nx, r = mkN P C_For [init; cond; nx; st] c)))
+       (p_iteration_statement P (S f)).
+Proof. exact loop_body_is_one_statement. Qed.
+Print Assumptions C05_loop_body_is_one_statement.
+
+(* a label, `case e:` or `default:` attaches to the ONE statement that follows (an EmptyStatement when none can start there) *)
+Theorem C05_label_attaches_to_next_statement : forall (P: Type) f,
+  post P (fun r => exists st c, label_body P f st /\\
+          ((exists name, r = mkN P C_Label [VStr name; st] c) \\/ (exists e, r = mkN P C_Case [e; VList [st]] c) \\/
+           r = mkN P C_Default [VList [st]] c))
+       (p_labeled_statement P (S f)).
+Proof. exact label_attaches_to_next_statement. Qed.
+Print Assumptions C05_label_attaches_to_next_statement.
 ''')
 mk("C06","parse() either returns a FileAST or raises ParseError - nothing else","CrashExamples"," LexerProofs LexNoCrash",
 '''(* termination of the lexing half: tokenising any text finishes within |text|+1 iterations *)
